@@ -1,7 +1,7 @@
 """C04 — privilege navigation reaches the target level along the tree path. Privilege.tla: the AcquirePriv loop over every rooted labelled tree (exhaustive);
 PrivScn.tla: generated trees x operation sequences with the device-side expectation; replayed on network.Driver against a device whose modes form the tree."""
 import json
-from vlib import ToolError
+from vlib import ToolError, confirm
 
 MC = """SPECIFICATION Spec
 CONSTANTS Levels = %s
@@ -52,14 +52,31 @@ def _run_main(ctx):
     if len(res) != len(scns) * per:
         raise ToolError("c04 answered %d of %d; stderr:\n%s" % (len(res), len(scns) * per, ctx.last_stderr[-3000:]))
     byid = {s["id"]: s for s in scns}
+    confirmed = {}
     for rr in res:
         ctx.count()
         if rr.get("nontrivial"):
             ctx.nontriv("%s/%s" % (rr["id"], rr["variant"]))
+        if rr.get("sig") == "TOOL":
+            again = confirm(ctx, "c04", dict(byid[rr["id"]], seg=rr["variant"]))
+            if again and again.get("sig") == "TOOL":
+                raise ToolError(again.get("detail"))
+            if again:
+                ctx.violation(again["sig"], again["detail"], dict(byid[rr["id"]], seg=rr["variant"]))
+            continue
         if not rr["ok"]:
             rp = dict(byid[rr["id"]])
             rp["seg"] = rr["variant"]
-            ctx.violation(rr["sig"], rr["detail"], rp)
+            # some operations meet a short timeout on purpose (stalled transition, late answer): a candidate must reproduce alone
+            st = confirmed.setdefault(rr["sig"], {"ok": 0, "tries": 0})
+            if st["ok"]:
+                ctx.violation(rr["sig"], rr["detail"], rp)
+            elif st["tries"] < 4:
+                st["tries"] += 1
+                bad = confirm(ctx, "c04", rp)
+                if bad:
+                    st["ok"] += 1
+                    ctx.violation(bad["sig"], bad["detail"], rp)
     ctx.traces_validated = len(res)
     ctx.sample({"scenario": scns[1]})
 
